@@ -1093,6 +1093,8 @@ func genPowers(r *rand.Rand) opT {
 	total := sum
 	if r.Intn(5) == 0 { // other bonded validators that never vote
 		total += int64(r.Intn(int(sum/2 + 2)))
+	} else if r.Intn(25) == 0 { // staking's two stores disagree (x/staking never does this): total below the sum, zero, negative
+		total = []int64{sum / 2, 0, -5, sum - 1}[r.Intn(4)]
 	}
 	return opT{Kind: "powers", Pw: pw, Total: total}
 }
